@@ -1,11 +1,16 @@
 ---------------------------- MODULE ArgvStr ----------------------------
-(* Input generator for the split / join half of C39: EVERY string of length <= MaxStr over Chars (0 = delimiter).
+(* Input generator for the split / join half of C39: EVERY string of length <= MaxStr over Chars (0 = delimiter),
+   and the strings made of fields of given lengths (FieldLens: a set of sequences of field lengths; lengths around the
+   size of the buffer parsec_argv_split copies short fields through, in first / middle / last position).
    One state per string; the action Check evaluates the specification operators on it, so that the invariants
    below (the property on the abstract level) are checked for every input before it is handed to the harness. *)
 EXTENDS Argv, TLC, Json
-CONSTANTS Chars, MaxStr
+CONSTANTS Chars, MaxStr, FieldLens
 VARIABLES s, done
-Strings == UNION {[1..n -> Chars] : n \in 0..MaxStr}
+\* a field of n characters: a run of the letter 1 closed by the letter 2 (a lost or repeated last character shows)
+Run(n) == IF n = 0 THEN <<>> ELSE [j \in 1..n |-> IF j = n THEN 2 ELSE 1]
+FieldString(fl) == <<>> \o Join([i \in 1..Len(fl) |-> Run(fl[i])])
+Strings == UNION {[1..n -> Chars] : n \in 0..MaxStr} \cup {FieldString(fl) : fl \in FieldLens}
 Init == s \in Strings /\ done = FALSE
 Check == ~done /\ done' = TRUE /\ UNCHANGED s
 Next == Check
